@@ -52,10 +52,10 @@ def configs(tier, seed):
     if tier == "thorough":
         univ, sizes = "abcd", (2, 1, 2, 3)
         subs = ordered_subsets(univ, maxlen=3)
-        for A in subs:
+        for A in subs + ordered_subsets(univ, minlen=4)[::3]:
             cfgs.append(dict(name="unary:%s:%s:%s" % (univ, sizes, "".join(A)), kind="unary", univ=univ, sizes=sizes, A=A))
-        for A in subs[::3]:
-            for B in subs[1::4]:
+        for A in subs[::2]:
+            for B in subs[1::3]:
                 cfgs.append(dict(name="binary:%s:%s:%s:%s" % (univ, sizes, "".join(A), "".join(B)), kind="binary",
                                  univ=univ, sizes=sizes, A=A, B=B))
     fams = [
